@@ -272,12 +272,15 @@ def judge (j : Json) : Except String Verdict := do
   let uni := match a.resources with | some r => r.unified | none => []
   let uniStable := (orders uni).all fun π =>
     alistEqv (Resources.applyUnified s.unified π) (Resources.applyUnified s.unified uni)
-  -- what the unrepaired transcription can produce (for the diagnosis only)
-  let unfixedOuts := annOrders.map fun π => adjustUnfixed ext s { a with annotations := π }
-  let matchesUnfixed := outs.all fun o => unfixedOuts.any fun u =>
+  -- what the transcriptions of the code before the repairs can produce (for the diagnosis only)
+  let sameAs (us : List (Except GenError Oci.Spec)) : Bool := outs.all fun o => us.any fun u =>
     match u with
-    | .ok us => o.err == "" && specEqv us o.spec
+    | .ok x => o.err == "" && specEqv x o.spec
     | .error ue => o.err == errName ue
+  let matchesLists := sameAs [adjustListsUnfixed ext s a]
+  let matchesUnfixed := matchesLists || sameAs (annOrders.map fun π => adjustUnfixed ext s { a with annotations := π })
+  let diag := if matchesLists then " [the result is that of generate.go without docs/fixes/C13-1.patch (removals before sets in env/devices/mounts)]"
+    else " [the results are those of generate.go before the repairs 1f50159/ad4e689/C13-1]"
   let agreeOut := match outs, m with
     | [o], .ok ms => o.err == "" && specEqv ms o.spec
     | [o], .error me => o.err == errName me
@@ -311,7 +314,7 @@ def judge (j : Json) : Except String Verdict := do
   let why :=
     if !spec && !excluded then
       (match first with | some f => f.why | none => "") ++
-        (if matchesUnfixed && !agreeOut then " [the results are those of the unrepaired transcription of generate.go]" else "")
+        (if matchesUnfixed && !agreeOut then diag else "")
     else if !agree then
       (match outs, m with
         | [o], .ok ms => if o.err == "" then s!"model and implementation differ in {diffFields ms o.spec}" else s!"implementation failed ({o.err}), model succeeds"
@@ -319,7 +322,7 @@ def judge (j : Json) : Except String Verdict := do
         | _, _ => s!"{outs.length} distinct implementation results; the model is deterministic") ++
         (if !annStable then "; MODEL annotations depend on the entry order" else "") ++
         (if !uniStable then "; MODEL unified depends on the entry order" else "") ++
-        (if matchesUnfixed then " [implementation matches the unrepaired transcription]" else "") ++
+        (if matchesUnfixed then diag else "") ++
         (match guard with | some g => s!" [{g}]" | none => "")
     else ""
   let cover := [s!"kind:{kind}", if excluded then "domain:excluded" else "domain:in",
